@@ -22,4 +22,15 @@ BOUNDS = {
         "assumptions": ["decimal formatting of the symbolic counter uses the engine's digit model (fork on digit count, digit_j = (n/10^j)%10), differentially validated against strconv by the conformance vectors",
                         "outside: str2sym/gensym at script level through the reader, names longer than the bound, counters beyond the bound"],
     },
+    "C01": {
+        "quick": "stack kernel: sizes 0..3, symbolic n>=0, 6 operations; forms: 38 heads x <=2 arguments from 12 shapes (symbolic ints inside); text: all byte strings of length 1..2. Step budget 400k SSA steps per evaluation (exhausting it is accepted: non-terminating programs).",
+        "thorough": "forms with <=3 arguments; text: all byte strings of length 1..3.",
+        "assumptions": ["vFormatOpaque: message texts mentioning symbolic numbers are placeholders", "outside: texts longer than the bound, process exit status of cmd/zygo, cyclic data printing, the token-queue harness of DESIGN §6 (not built)"],
+    },
+    "C13": {
+        "quick": "history: lexer state havocked (all scalar fields incl. the 20-rune look-back ring, previous tokens with strings of length<=1; ring index in {0,1,19}), 2 junk bytes in the buffer and 1 junk token in the queue, then every text of 1..2 bytes; second parse: every first text of 1..2 bytes then one of 10 fixed second texts; chunks: every text of 2..3 bytes, every single cut; last token: every text of 1..2 bytes that reads as one atom when followed by a newline.",
+        "thorough": "texts one byte longer in each harness.",
+        "assumptions": ["regexp matching on symbolic text is the engine's NFA-as-term model; strconv.ParseFloat on symbolic text is handled by enumerating the feasible byte values",
+                        "outside: longer texts, two or more cuts, the 'asks for more input exactly when unfinished' clause is only checked through chunk equivalence, the REPL's liner loop"],
+    },
 }
